@@ -1,7 +1,7 @@
 (** Extraction of the executable specification, the frozen model and (when it compiled) the
     regenerated translation to OCaml, for the correspondence harness.
     Only ExtrOcamlBasic (Extract Inductive for bool, option, unit, list, prod, sumbool, sumor;
-    no Extract Constant): Z, positive, N, nat and byte stay the extracted inductive types. *)
+    no constant is remapped): Z, positive, N, nat and byte stay the extracted inductive types. *)
 From Coq Require Extraction ExtrOcamlBasic.
 From HV Require Import Prelude.Py Prelude.State Prelude.Utf8.
 From HV Require Spec.IntRep Spec.HuffmanCode Spec.StaticTable Spec.DynTable Spec.SDecoder.
